@@ -1887,7 +1887,11 @@ class TagNode(_ElementWrappingNode, NodeBase):
         if isinstance(node, _ElementWrappingNode):
             self._etree_obj.append(node._etree_obj)
         elif isinstance(node, TextNode):
-            node._bind_to_data(self)
+            if self._data_node._exists:
+                # there's text that the active default filters hide
+                self._data_node._prepend_text_node(node)
+            else:
+                node._bind_to_data(self)
 
     def append_children(
         self, *node: NodeSource, clone: bool = False
